@@ -139,6 +139,12 @@ class TcpConnection(
     def connection_made(self, transport):
         self._transport = transport
 
+        if self._ctx._tokenmanager is None:
+            # The pool was shut down between the creation of this object and
+            # the connection being handed over: nobody will release it.
+            transport.abort()
+            return
+
         ssl_object = transport.get_extra_info("ssl_object")
         if ssl_object is not None:
             server_name = getattr(ssl_object, "indicated_server_name", None)
@@ -245,6 +251,10 @@ class TcpConnection(
         pass
 
     async def release(self):
+        if self._transport is None:
+            # Accepted but not handed over yet; connection_made will find the
+            # pool shut down.
+            return
         await super().release()
         # Not waiting for the peer to hang up: Once the pool is shut down,
         # nothing is to be received or sent on this connection any more.
